@@ -12,6 +12,7 @@ empty input.
 `Spec.spec cfg ms` is the stateless statement of the property (Kap/Spec/C11.lean).
 -/
 import Kap.Proofs.C11Stream
+import Kap.Proofs.C11Defs
 namespace Kap.Props.C11
 open Kap.C11 Kap.C11.Spec
 
@@ -73,6 +74,62 @@ theorem no_panic_stream (cfg : Cfg) (hT : cfg.fn.isTransformation = false) (ms :
   rw [stream_runs cfg hT ms hp]
   exact spec_no_panic cfg ms
 
+
+/-! ### The definitions themselves (int64 values; float arithmetic is opaque and only tied by correspondence) -/
+
+/-- **Typing ("int stays int")**: every value the spec emits for values of kind `k` has the documented kind
+`outKind fn k` — int for count / elapsed, the input kind for sum, mode, min, max, first, last, spread,
+percentile, distinct, top, bottom, float for mean, median, stddev. -/
+theorem typing (cfg : Cfg) (k : Kind) (xs : List QP) (hk : ∀ x ∈ xs, x.val.kind = k)
+    (hs : supported cfg.fn k = true) :
+    ∀ k' ∈ (meaning cfg k xs).kinds, outKind cfg.fn k = some k' :=
+  typing' cfg k xs hk hs
+
+example : (meaning { fn := .sum, as_ := "s" } .int [⟨1, .int 2, [], []⟩, ⟨2, .int 3, [], []⟩]).kinds = [.int] := by decide
+example : (meaning { fn := .top, as_ := "s", n := 1 } .int [⟨1, .int 2, [], []⟩, ⟨2, .int 3, [], []⟩]).kinds = [.int] := by decide
+
+/-- sum of int64 values = the mathematical sum reduced to the int64 range … -/
+theorem sum_int_is_sum (xs : List QP) (h : AllInt xs) :
+    sumVals .int xs = .int (wrap64 ((xs.map intVal).sum)) :=
+  sumVals_int_closed xs h
+
+/-- … which IS the mathematical sum whenever that fits in an int64. -/
+theorem wrap64_exact (x : Int) (h1 : -9223372036854775808 ≤ x) (h2 : x < 9223372036854775808) : wrap64 x = x :=
+  wrap64_id x h1 h2
+
+/-- **Order-independence** of sum (int), whatever the arrival order of the batch's points. -/
+theorem sum_int_order_independent (xs ys : List QP) (h : AllInt xs) (p : xs.Perm ys) :
+    sumVals .int xs = sumVals .int ys :=
+  sumVals_perm_int xs ys h p .int
+
+/-- count only depends on how many values there are. -/
+theorem count_order_independent (cfg : Cfg) (hf : cfg.fn = .count) (k : Kind) (xs ys : List QP) (p : xs.Perm ys) :
+    meaning cfg k xs = meaning cfg k ys := by
+  simp [meaning, hf, p.length_eq]
+
+/-- min of int64 values is THE least value of the batch, max THE greatest … -/
+theorem min_int_is_least (xs : List QP) (h : AllInt xs) (hne : xs ≠ []) :
+    ∃ m, minVal xs = some (.int m) ∧ (∃ x ∈ xs, intVal x = m) ∧ ∀ x ∈ xs, m ≤ intVal x :=
+  minVal_int xs h hne
+
+theorem max_int_is_greatest (xs : List QP) (h : AllInt xs) (hne : xs ≠ []) :
+    ∃ m, maxVal xs = some (.int m) ∧ (∃ x ∈ xs, intVal x = m) ∧ ∀ x ∈ xs, intVal x ≤ m :=
+  maxVal_int xs h hne
+
+/-- … hence min, max and spread (max − min) do not depend on the arrival order. -/
+theorem spread_int_order_independent (cfg : Cfg) (hf : cfg.fn = .spread) (xs ys : List QP) (h : AllInt xs)
+    (hne : xs ≠ []) (p : xs.Perm ys) : meaning cfg .int xs = meaning cfg .int ys := by
+  simp [meaning, hf, minVal_perm_int xs ys h hne p, maxVal_perm_int xs ys h hne p]
+
+example : AllInt [⟨1, .int 5, [], []⟩, ⟨2, .int (-3), [], []⟩] ∧
+    meaning { fn := .spread, as_ := "s" } .int [⟨1, .int 5, [], []⟩, ⟨2, .int (-3), [], []⟩] = .value (.int 8) := by
+  refine ⟨?_, by decide⟩
+  intro x hx; simp at hx; rcases hx with rfl | rfl <;> exact ⟨_, rfl⟩
+
+/-- A selector returns one of the batch's own points (so its time, tags and fields are that point's). -/
+theorem selector_selects_a_point (fn : Fn) (xs : List QP) (p : QP) (h : select fn xs = some p) : p ∈ xs :=
+  select_mem fn xs p h
+
 /-! ### The defects of snapshot ef0888e, on the model of the old code (each replayed on the real code by the
 corpus file named; each repaired by a `fix:` commit, see findings/C11.txt) -/
 
@@ -113,5 +170,25 @@ theorem snapshot_reemit_counterexample :
 theorem snapshot_single_point_time_counterexample :
     ∃ (cfg : Cfg) (ms : List Msg), run { singleKeepsTime := true } cfg ms ≠ spec cfg ms :=
   ⟨{ fn := .mode, as_ := "mode", pointTimes := true }, [.batch { gtags := ga, tmax := 20, pts := [ipt 13 7] }], by decide⟩
+
+/-! ### Non-vacuity: the hypotheses are met by concrete, non-trivial histories -/
+
+example : CacheInv { fn := .sum, as_ := "s" } {} := cacheInv_init _
+
+example :
+    let cfg : Cfg := { fn := .mean, as_ := "m" }
+    let ms := [Msg.batch { gtags := ga, tmax := 10, pts := [ipt 1 4, spt 2 "x", ipt 3 6] },
+               Msg.batch { gtags := [], tmax := 10, pts := [] },
+               Msg.batch { gtags := ga, tmax := 20, pts := [ipt 11 1] }]
+    cfg.fn.isTransformation = false ∧ allBatches ms ∧ (run {} cfg ms).length = 2 := by
+  refine ⟨rfl, ?_, by decide⟩
+  intro m hm; simp at hm; rcases hm with rfl | rfl | rfl <;> exact ⟨_, rfl⟩
+
+example :
+    let cfg : Cfg := { fn := .max, as_ := "m", pointTimes := true }
+    let ms := [Msg.point ga (ipt 1 4), Msg.point ga (ipt 1 9), Msg.point [] (ipt 1 0), Msg.point ga (ipt 2 6), Msg.point ga (ipt 1 6)]
+    cfg.fn.isTransformation = false ∧ allPoints ms ∧ (run {} cfg ms).length = 2 := by
+  refine ⟨rfl, ?_, by decide⟩
+  intro m hm; simp at hm; rcases hm with rfl | rfl | rfl | rfl | rfl <;> exact ⟨_, _, rfl⟩
 
 end Kap.Props.C11
